@@ -42,6 +42,18 @@ func (e *Engine) specAxioms(pkg *types.Package) []*Term {
 		env := &SpecEnv{e: e, pre: st, post: st, vars: map[string]SVal{}, pkg: pkg}
 		out = append(out, env.evalBool(a.E))
 	}
+	// key spaces: family id of a key, as a function of the key (exists because the literals were checked prefix-free)
+	for _, ks := range e.db.KeySpaces {
+		fam := func(k *Term) *Term { return App("ks$"+ks.Name, SInt, k) }
+		a := BoundVar("ks_a", SSeq)
+		for i, p := range ks.Prefixes {
+			k := App("seq_cat", SSeq, App("s2b", SSeq, SeqLit(p)), a)
+			out = append(out, Forall([]*Term{a}, Eq(fam(k), IntLit(int64(i+1))), k))
+		}
+		for i, x := range ks.Exact {
+			out = append(out, Eq(fam(App("s2b", SSeq, SeqLit(x))), IntLit(int64(len(ks.Prefixes)+i+1))))
+		}
+	}
 	return out
 }
 
@@ -269,7 +281,7 @@ func (e *Engine) resolveFrame(c *Contract, vars map[string]SVal, pkg *types.Pack
 					}
 				case "big":
 					fi.objs = append(fi.objs, frameObj{"BigVal", v.V.T})
-				case "dyn":
+				case "dyn", "dynfresh":
 					fi.all = true
 				case "deref":
 					if pt, ok := v.T.Underlying().(*types.Pointer); ok && v.V.T != nil {
